@@ -54,6 +54,21 @@ class SimCrash(BaseException):
         self.where = where
 
 
+def _fspath(p):
+    """os.fspath with the TypeError marked as the caller's own (what the real function would
+    raise for the same argument), so that it is not mistaken for a defect of the model."""
+    try:
+        return _real_os.fspath(p)
+    except TypeError as e:
+        e._sim_user_error = True
+        raise
+
+
+def _user_error(exc):
+    exc._sim_user_error = True
+    return exc
+
+
 def oserr(code: int, path=None, path2=None) -> OSError:
     if path2 is not None:
         return OSError(code, _real_os.strerror(code), path, None, path2)
@@ -95,25 +110,20 @@ class Inode:
         self.perm = None  # permission bits if chmod was called (informational: access is not enforced)
 
 
-class SimStat:
-    """Just enough of os.stat_result."""
-
-    def __init__(self, node: Inode):
-        self.st_ino = node.ino
-        self.st_dev = 0x5151
-        self.st_nlink = node.nlink
-        self.st_size = len(node.data) if node.kind == "f" else 0
-        self.st_mode = {
-            "f": _stat.S_IFREG | (0o644 if node.perm is None else node.perm),
-            "d": _stat.S_IFDIR | (0o755 if node.perm is None else node.perm),
-            "l": _stat.S_IFLNK | 0o777,
-        }[node.kind]
-        self.st_uid = self.st_gid = 1000
-        self.st_blksize = 4096
-        self.st_blocks = (self.st_size + 511) // 512
-        self.st_rdev = 0
-        self.st_mtime = self.st_atime = self.st_ctime = float(node.mtime)
-        self.st_mtime_ns = self.st_atime_ns = self.st_ctime_ns = int(node.mtime * 1e9)
+def SimStat(node: Inode):
+    """A genuine os.stat_result (indexable, isinstance-able) describing a simulated inode."""
+    size = len(node.data) if node.kind == "f" else 0
+    mode = {
+        "f": _stat.S_IFREG | (0o644 if node.perm is None else node.perm),
+        "d": _stat.S_IFDIR | (0o755 if node.perm is None else node.perm),
+        "l": _stat.S_IFLNK | 0o777,
+    }[node.kind]
+    t = float(node.mtime)
+    ns = int(node.mtime * 1e9)
+    return _real_os.stat_result(
+        (mode, node.ino, 0x5151, node.nlink, 1000, 1000, size, int(t), int(t), int(t)),
+        {"st_atime": t, "st_mtime": t, "st_ctime": t, "st_atime_ns": ns, "st_mtime_ns": ns, "st_ctime_ns": ns, "st_blksize": 4096, "st_blocks": (size + 511) // 512, "st_rdev": 0},
+    )
 
 
 class SimFS:
@@ -172,7 +182,7 @@ class SimFS:
     def is_real(self, path) -> bool:
         """True if `path` names something outside the simulated world."""
         try:
-            p = _real_os.fspath(path)
+            p = _fspath(path)
         except TypeError:
             return False
         if isinstance(p, bytes):
@@ -183,7 +193,7 @@ class SimFS:
 
     def _abspath(self, path: str) -> str:
         if not isinstance(path, str):
-            path = _real_os.fspath(path)
+            path = _fspath(path)
             if isinstance(path, bytes):
                 path = path.decode("utf-8", "surrogateescape")
         if path == "":
@@ -394,6 +404,8 @@ class SimFS:
         fs = cls()
         fs.blksize = int(img.get("blksize") or 4096)
         fs.recycle_inodes = bool(img.get("recycle_inodes"))
+        fs.dir_order = int(img.get("dir_order") or 0)
+        fs.h_mkdir("/tmp")  # where tempfile looks when no dir= is given
         for d in img.get("dirs", []):
             fs.h_mkdir(d)
         for p, text in img.get("files", {}).items():
@@ -447,7 +459,9 @@ class SimFS:
             # a persistent condition set up by an earlier sticky fault?
             cls = _SEAM_CLASS.get(kind)
             for (c, p, e, left) in self.sticky:
-                if c == cls and (p is None or p == path) and e in FAULTS_BY_CALL.get(kind, ()):
+                # (a volume-wide condition -- disk full, read-only -- belongs to one side; a
+                # path-scoped one -- no permission, vanished -- hits every call that resolves it)
+                if ((p is None and c == cls and e in FAULTS_BY_CALL.get(kind, ())) or (p is not None and p == path and (c == cls and e in FAULTS_BY_CALL.get(kind, ()) or e in ("EACCES", "ELOOP", "ENOENT")))):
                     if kind == "write":
                         return {"kind": e, "frac": 0.0, "sticky_echo": True}
                     self.fired.append({"call": n, "seam": kind, "kind": e, "sticky_echo": True})
@@ -516,16 +530,16 @@ class SimFS:
         idiom behaves as on a real file; only the raw layer is simulated."""
         if isinstance(file, int):
             if file >= self.FD_BASE:
-                return self.fdopen(file, mode, buffering, encoding, errors, newline)
+                return self.fdopen(file, mode, buffering, encoding, errors, newline, closefd)
             return _REAL_OPEN(file, mode, buffering, encoding, errors, newline, closefd, opener)
         if not isinstance(mode, str):
             raise TypeError("invalid mode: %r" % (mode,))
         if self.is_real(file) and opener is None:
             if any(c in mode for c in "wax+"):
-                raise HarnessError("write to real path %r from inside the simulation" % (file,))
+                self._refuse_real_write(file)
             return _REAL_OPEN(file, mode, buffering, encoding, errors, newline, closefd, opener)
         fl = _ModeFlags(mode, buffering, encoding, errors, newline)
-        path = _real_os.fspath(file)
+        path = _fspath(file)
         if isinstance(path, bytes):
             path = path.decode("utf-8", "surrogateescape")
         if opener is not None:
@@ -540,6 +554,19 @@ class SimFS:
         else:
             raw = self._open_raw(path, fl.reading and not fl.updating, fl.writing or fl.creating or fl.appending or fl.updating, fl.appending, fl.creating, fl.writing, must_exist=fl.reading, readable=fl.reading or fl.updating)
         return self._wrap(raw, mode, fl, buffering, encoding, errors, newline)
+
+    def _refuse_real_write(self, path):
+        """The interpreter's and the system's own directories (/usr, /venv, the tree under test
+        ...) are visible but never writable from inside the simulation: the simulated user has no
+        permission there (nothing is ever written to the real file system)."""
+        p = _fspath(path)
+        if isinstance(p, bytes):
+            p = p.decode("utf-8", "surrogateescape")
+        try:
+            _REAL_STAT(posixpath.dirname(p) or "/")
+        except OSError:
+            raise oserr(errno.ENOENT, p)
+        raise oserr(errno.EACCES, p)
 
     def _open_raw(self, path, read_only, writable, append, excl, trunc, must_exist=False, readable=False, create=True):
         if read_only:
@@ -645,7 +672,7 @@ class SimFS:
         return self.cwd
 
     def chdir(self, path) -> None:
-        p = _real_os.fspath(path)
+        p = _fspath(path)
         self._seam("stat", p)
         node = self._walk(p)
         if node.kind != "d":
@@ -670,12 +697,26 @@ class SimFS:
             path = self._fd(path).path
         if self.is_real(path):
             return _REAL_LISTDIR(path)
-        p = _real_os.fspath(path)
+        p = _fspath(path)
         self._seam("stat", p)
         node = self._walk(p)
         if node.kind != "d":
             raise oserr(errno.ENOTDIR, p)
-        return sorted(node.entries)
+        names = self._dir_order(node.entries)
+        if isinstance(path, bytes):
+            return [n.encode("utf-8", "surrogateescape") for n in names]
+        return names
+
+    def _dir_order(self, names):
+        """The order in which a directory hands out its entries: like a real file system's hash
+        order it has nothing to do with the names; it is fixed per run (knob `dir_order`,
+        0 = sorted)."""
+        k = getattr(self, "dir_order", 0)
+        if not k:
+            return sorted(names)
+        import hashlib
+
+        return sorted(names, key=lambda n: hashlib.sha256(("%d/%s" % (k, n)).encode("utf-8", "surrogateescape")).digest())
 
     def mkdir(self, path, mode=0o777, *, dir_fd=None) -> None:
         p = self._at(path, dir_fd)
@@ -685,6 +726,8 @@ class SimFS:
             raise oserr(errno.EEXIST, p)
         node = self._new("d")
         node.nlink = 1
+        if mode != 0o777:
+            node.perm = mode & 0o7777 & ~0o022
         parent.entries[name] = node.ino
 
     def unlink(self, path, *, dir_fd=None) -> None:
@@ -721,8 +764,14 @@ class SimFS:
         ino = sp.entries.get(sn)
         if ino is None:
             raise oserr(errno.ENOENT, s, d)
+        if self.inodes[ino].kind == "d":
+            sa, da = posixpath.normpath(self._abspath(s)), posixpath.normpath(self._abspath(d))
+            if da.startswith(sa.rstrip("/") + "/"):
+                raise oserr(errno.EINVAL, s, d)  # a directory cannot be moved into itself
         dp, dn = self._walk(d, want_parent=True)
         old = dp.entries.get(dn)
+        if old is not None and old == ino:
+            return  # both names are the same file already: nothing happens
         if old is not None:
             on = self.inodes[old]
             if on.kind == "d" and self.inodes[ino].kind != "d":
@@ -740,7 +789,7 @@ class SimFS:
 
     def _at(self, path, dir_fd):
         """Path argument of a *at()-style call (dir_fd=...)."""
-        p = _real_os.fspath(path)
+        p = _fspath(path)
         if isinstance(p, bytes):
             p = p.decode("utf-8", "surrogateescape")
         if dir_fd is None or p.startswith("/"):
@@ -754,9 +803,12 @@ class SimFS:
         import os as _o
 
         p = self._at(path, dir_fd)
-        if self.is_real(p):
-            raise HarnessError("os.open of the real path %r from inside the simulation" % (p,))
         acc = flags & _o.O_ACCMODE
+        if self.is_real(p):
+            if acc != _o.O_RDONLY or (flags & _o.O_CREAT):
+                self._refuse_real_write(p)
+            raise HarnessError("os.open (read-only) of the real path %r from inside the simulation" % (p,))
+        created = False
         exists, node = True, None
         try:
             node = self._walk(p, follow_last=not (flags & _o.O_NOFOLLOW))
@@ -775,6 +827,7 @@ class SimFS:
         if acc == _o.O_RDONLY and not (flags & _o.O_CREAT):
             raw = self._open_raw(p, True, False, False, False, False)
         else:
+            created = not exists
             raw = self._open_raw(
                 p,
                 False,
@@ -785,7 +838,14 @@ class SimFS:
                 readable=acc in (_o.O_RDONLY, _o.O_RDWR),
                 create=bool(flags & _o.O_CREAT),
             )
+        if created and raw.node.perm is None and mode != 0o777:
+            raw.node.perm = mode & 0o7777 & ~0o022
         return raw.fileno()
+
+    def _alive(self) -> None:
+        """Calls that do not pass a seam (descriptor-based metadata changes) after the kill."""
+        if self.crashed:
+            raise SimCrash(self.crash_power, "after-crash")
 
     def _fd(self, fd):
         sf = getattr(self, "fds", {}).get(fd)
@@ -821,9 +881,12 @@ class SimFS:
 
     def os_close(self, fd):
         sf = self._fd(fd)
-        if isinstance(sf, SimDirHandle):
+        if isinstance(sf, (SimDirHandle, _LeftoverFd)):
             del self.fds[fd]
+            if isinstance(sf, _LeftoverFd) and sf._w:
+                self._seam("close_w", sf.name)
             return
+        sf._keep_fd = False
         sf.close()
 
     def alloc_fd(self, sf) -> int:
@@ -848,6 +911,8 @@ class SimFS:
     def fdopen(self, fd, mode="r", buffering=-1, encoding=None, errors=None, newline=None, closefd=True, opener=None):
         raw = self._rawfd(fd)
         fl = _ModeFlags(mode, buffering, encoding, errors, newline)
+        if not closefd:
+            raw._keep_fd = True
         return self._wrap(raw, mode, fl, buffering, encoding, errors, newline)
 
     def chmod(self, path, mode, *, dir_fd=None, follow_symlinks=True):
@@ -870,9 +935,9 @@ class SimFS:
         self._seam("open_w", d)
         parent, name = self._walk(d, want_parent=True)
         if name in parent.entries:
-            raise oserr(errno.EEXIST, _real_os.fspath(src), d)
+            raise oserr(errno.EEXIST, _fspath(src), d)
         node = self._new("l")
-        node.target = _real_os.fspath(src)
+        node.target = _fspath(src)
         node.nlink = 1
         parent.entries[name] = node.ino
 
@@ -890,9 +955,13 @@ class SimFS:
 
     def truncate(self, path, length):
         if isinstance(path, int):
-            node = self._fd(path).node
+            self._alive()
+            h = self._fd(path)
+            if not getattr(h, "_w", True):
+                raise oserr(errno.EINVAL)
+            node = h.node
         else:
-            p = _real_os.fspath(path)
+            p = _fspath(path)
             self._seam("open_w", p)
             node = self._walk(p)
         if node.kind != "f":
@@ -923,7 +992,7 @@ class SimFS:
                 return _REAL_SCANDIR(path)
             p = self._fd(path).path
         else:
-            p = _real_os.fspath(path)
+            p = _fspath(path)
             if isinstance(p, bytes):
                 p = p.decode("utf-8", "surrogateescape")
             if self.is_real(p):
@@ -934,7 +1003,7 @@ class SimFS:
             raise oserr(errno.ENOTDIR, p)
         fs = self
         # (scanning a descriptor: DirEntry.path is the bare name, as in CPython)
-        entries = [SimDirEntry(fs, p, name, fs.inodes[ino], bare=via_fd) for name, ino in sorted(node.entries.items())]
+        entries = [SimDirEntry(fs, p, name, fs.inodes[node.entries[name]], bare=via_fd) for name in self._dir_order(node.entries)]
 
         class _It:
             def __init__(self_):
@@ -1048,6 +1117,16 @@ class _ModeFlags:
         return fl | getattr(o, "O_CLOEXEC", 0)
 
 
+class _LeftoverFd:
+    """The descriptor of a file object that was opened with closefd=False and then closed."""
+
+    def __init__(self, raw):
+        self.node, self.name, self._w, self.fs = raw.node, raw.name, raw._w, raw.fs
+
+    def _abandon(self):
+        pass
+
+
 class SimDirHandle:
     """A descriptor of a directory (os.open(dir, O_RDONLY): dir_fd=..., os.scandir(fd))."""
 
@@ -1072,9 +1151,11 @@ class SimRaw(_io.RawIOBase):
         self.node = node
         self.name = path
         self._r, self._w, self._append = bool(readable), bool(writable), bool(append)
-        self._pos = 0
+        self._pos = len(node.data) if append else 0
         self._dead = False
         self._fdno = None
+        self._keep_fd = False
+        self._pending_errno = None
         self.mode = ("ab+" if readable else "ab") if append else ("rb+" if readable else "wb") if writable else "rb"
 
     # --- the simulator's side
@@ -1160,14 +1241,22 @@ class SimRaw(_io.RawIOBase):
             self._store(data[:keep])
             fs.fired.append({"call": fs.call_no, "seam": "write", "kind": f["kind"], "kept": keep, "of": total})
             fs._probe("torn_write")
+            if keep > 0:
+                # like write(2): a short count now, the error on the next call (the buffered layer
+                # above knows how much went out and does not write the prefix twice)
+                self._pending_errno = f["kind"]
+                return keep
             raise oserr(getattr(errno, f["kind"]), self.name)
+        if self._pending_errno is not None:
+            e, self._pending_errno = self._pending_errno, None
+            raise oserr(getattr(errno, e), self.name)
         self._store(data)
         return len(data)
 
     def seek(self, pos, whence=0):
         self._alive()
         if not isinstance(pos, int):
-            raise TypeError("an integer is required")
+            raise _user_error(TypeError("'%s' object cannot be interpreted as an integer" % type(pos).__name__))
         if whence == 0:
             new = pos
         elif whence == 1:
@@ -1207,6 +1296,10 @@ class SimRaw(_io.RawIOBase):
             super().close()  # marks the object closed (the descriptor is gone whatever happens next)
         finally:
             fs = self.fs
+            if self._keep_fd:
+                # opened with closefd=False: the descriptor outlives the file object
+                fs.fds[self._fdno] = _LeftoverFd(self)
+                return
             if self._fdno is not None:
                 getattr(fs, "fds", {}).pop(self._fdno, None)
                 self._fdno = None
